@@ -79,6 +79,11 @@ def main():
                 os.makedirs(dest, exist_ok=True)
                 shutil.copy(patch, f"{dest}/patch.diff")
                 shutil.copy(demo, f"{dest}/demo.py")
+                # helper modules / harnesses that the demonstration imports (everything that is not a demo, observation or fuzzer)
+                for f in glob.glob(f"{src}/*"):
+                    b = os.path.basename(f)
+                    if os.path.isfile(f) and b.endswith((".py", ".c", ".h")) and not re.match(r"(demo\d|observation|obs_|fuzz|sweep)", b):
+                        shutil.copy(f, f"{dest}/{b}")
                 m = json.load(open(meta)) if os.path.exists(meta) else {}
                 m["property"] = pid
                 m["confirmed_by"] = {
